@@ -5,6 +5,24 @@ sys.path.insert(0, os.path.join(os.path.dirname(os.path.abspath(__file__)), '..'
 import e1check
 
 
+def probe(rng, cid, lock):
+    """Preemption-bounded probe for the stop-token wait: 1-2 waiters run a chosen number of steps
+    each, then request_stop runs to completion, then the PRNG takes over.  Sweeps the position of
+    the stop request relative to the waiter's stop_requested() checks, its registration and its
+    enqueue (windows a uniform schedule hits with probability ~2^-15)."""
+    nw = rng.weighted([(1, 3), (2, 2)])
+    sc = []
+    for w in range(nw):
+        sc += [str(w)] * (1 + rng.below(13))
+    sc += [str(nw)] * 24
+    lines = [f'case {cid} cv=any lock={lock} flag=0 seed={rng.below(1 << 30)} strat={rng.weighted([(0, 3), (2, 1)])} script=' + ','.join(sc)]
+    for w in range(nw):
+        lines.append(f'thread {w}: lock ; swaitp ; unlock ;')
+    lines.append(f'thread {nw}: ' + rng.weighted([('stop ;', 3), ('lock ; set 1 ; unlock ; stop ;', 1), ('lock ; stop ; unlock ;', 1)]))
+    lines.append('endcase')
+    return '\n'.join(lines)
+
+
 def gen(rng, cid):
     k = rng.weighted([(2, 4), (3, 5), (4, 3), (5, 1), (6, 1)])
     cv = rng.weighted([('plain', 1), ('any', 1)])
@@ -14,10 +32,20 @@ def gen(rng, cid):
     # wait(lock, stop_token, pred) / request_stop on one shared stop_source; a few of them run the
     # logical threads as pika tasks (a runtime start per case is slow, so the share is small)
     stopcase = cv == 'any' and rng.below(5) < 2
+    if stopcase and rng.below(8) == 0:
+        return probe(rng, cid, lock)
     mode = 'pika' if stopcase and rng.below(12) == 0 else 'os'
     hdr = f'case {cid} cv={cv} lock={lock} flag={flag} seed={rng.below(1 << 30)} strat={rng.weighted([(0, 5), (1, 3), (2, 2)])}'
     if mode != 'os':
         hdr += f' mode={mode}'
+    if stopcase and rng.below(3) == 0:
+        # a few long runs of single threads before the PRNG takes over: reaches the narrow windows
+        # (e.g. a complete request_stop between a waiter's stop_requested() check and its enqueue)
+        # that uniform choices hit with probability ~2^-15
+        sc = []
+        for _ in range(2 + rng.below(3)):
+            sc += [str(rng.below(k))] * (1 + rng.below(14))
+        hdr += ' script=' + ','.join(sc)
     lines = [hdr]
     stoppers = 0
     for t in range(k):
@@ -115,7 +143,7 @@ _unwrap_replay()
 e1check.run(dict(
     prop='C07', model='cv', harness='e1/cv.cpp', bin='e1_cv', gen=gen, nontrivial=nontrivial, stats=stats,
     quick=6000, thorough=150000, extra=12000,
-    rule='random programs (2-6 threads, 1-3 blocks each: waiter blocks lock;wait|wait(pred)|wait_for|wait_for(pred)|wait(stop_token,pred);unlock, notifier blocks with set/notify_one/notify_all inside or after the critical section, bare notifies, request_stop inside/after/without a critical section) on one pika::condition_variable or condition_variable_any with a user-defined lock (via std::unique_lock or directly) or std::unique_lock<spinlock>, one shared stop_source in about 40 % of the condition_variable_any cases (a few of them on pika tasks instead of OS threads), PRNG schedules (uniform / priority / sticky), virtual deadlines; non-trivial = at least one thread enqueued on the condition variable; distinct = distinct (program, schedule seed) text',
+    rule='random programs (2-6 threads, 1-3 blocks each: waiter blocks lock;wait|wait(pred)|wait_for|wait_for(pred)|wait(stop_token,pred);unlock, notifier blocks with set/notify_one/notify_all inside or after the critical section, bare notifies, request_stop inside/after/without a critical section) on one pika::condition_variable or condition_variable_any with a user-defined lock (via std::unique_lock or directly) or std::unique_lock<spinlock>, one shared stop_source in about 40 % of the condition_variable_any cases (a few of them on pika tasks instead of OS threads), PRNG schedules (uniform / priority / sticky; a third of the stop-token cases with a directed prefix of 2-4 long single-thread runs, and 1 in 8 of them a preemption-bounded probe: 1-2 stop-token waiters run a chosen number of steps, then request_stop runs to completion), virtual deadlines; non-trivial = at least one thread enqueued on the condition variable; distinct = distinct (program, schedule seed) text',
     assumptions=['of the stop-token waits only wait(lock, stop_token, pred) is in the Lean model; wait_until/wait_for(lock, stop_token, ...) are not; the stop state is modelled through the interface events of Model/CV.lean (its lock loops are the subject of C14)',
                  'the user lock is modelled as an abstract mutual-exclusion lock; pika::mutex as the user lock (needs pika task identity) is not exercised by the harness',
                  'predicate state is changed only while holding the user lock (operation set)'],
